@@ -289,7 +289,10 @@ def inconclusive(prop, reason, detail=""):
 
 
 def run(prop, spec, tier, seed, replay, scratch, nproc, t0):
-    modes = spec["modes"](tier)
+    modes = list(spec["modes"](tier))
+    for m in os.environ.get("VERIF_EXTRA_MODES", "").split(","):
+        if m and m in BUILD_FLAGS and m not in modes and not spec.get("custom"):
+            modes.append(m)
     if replay:
         modes = [replay.get("mode", modes[0])]
     if spec.get("custom"):
@@ -382,6 +385,11 @@ def run(prop, spec, tier, seed, replay, scratch, nproc, t0):
                 races_dedup.setdefault(k, (b, j))
 
     libcov = library_coverage([j for j in jobs if j["mode"] == "cover"]) if "cover" in modes else None
+    if os.environ.get("VERIF_COVER_OUT") and "cover" in modes:
+        for n, j in enumerate(j for j in jobs if j["mode"] == "cover"):
+            src = j["env"].get("GOCOVERDIR", "")
+            if os.path.isdir(src) and os.listdir(src):
+                shutil.copytree(src, os.path.join(os.environ["VERIF_COVER_OUT"], "%s-%d" % (prop, n)), dirs_exist_ok=True)
 
     findings, fixed = load_known()
     os.makedirs(os.path.join(VERIF, "replays"), exist_ok=True)
